@@ -356,6 +356,26 @@ def bypass_feedback(rng, count):
     return out
 
 
+# netlists that once exposed a defect (see known_findings.json): always part of the check, whatever TLC samples
+REGRESSIONS = [
+    [["And2", "And2", "Reg"], [[1, 5], [3, 3], [4]], [[], [], [0, 0, 0]]],        # same wire on two pins of the sink, backward edge
+    [["Not", "Not", "Not", "Mux2"], [[1], [3], [4], [5, 3, 3]], [[], [], [], []]],  # same, long forward edge from a child
+    [["Not", "Not", "Mux2"], [[1], [3], [4, 2, 2]], [[], [], []]],                  # same, long forward edge from a port
+    [["Mux2", "Reg"], [[1, 4, 4], [3]], [[], [0, 0, 0]]],
+    [["And2", "Reg", "Reg"], [[5, 5], [3], [4]], [[], [0, 0, 0], [0, 0, 0]]],
+]
+
+
+def regression_netlists():
+    out = []
+    for kinds, ins, ps in REGRESSIONS:
+        net = {'width': [1] * (2 + len(kinds)), 'leaves': [{'kind': kinds[b], 'ins': ins[b], 'outs': [3 + b], 'p': ps[b]} for b in range(len(kinds))]}
+        with quiet():
+            blk = wrap(net, 2)
+        out.append(({'name': 'tlc-netlist %s' % json.dumps([kinds, ins, ps]), 'class': 'tlc-netlist'}, blk))
+    return out
+
+
 def check(run):
     rng = random.Random(run.seed + 18)
     cases, metas = [], []
@@ -371,6 +391,7 @@ def check(run):
         blocks += compositions(rng, 1500)
         blocks += layered(rng, 5000)
         blocks += bypass_feedback(rng, 400)
+    blocks += regression_netlists()
     collect(run, blocks, cases, metas)
     if not cases:
         raise MachineryError('no layouts recorded')
